@@ -126,6 +126,8 @@ template<typename A>
 CouponHashSet<A>* CouponHashSet<A>::newSet(std::istream& is, const A& allocator) {
   uint8_t listHeader[8];
   read(is, listHeader, 8 * sizeof(uint8_t));
+  if (!is.good())
+    throw std::runtime_error("error reading from std::istream");
 
   if (listHeader[hll_constants::PREAMBLE_INTS_BYTE] != hll_constants::HASH_SET_PREINTS) {
     throw std::invalid_argument("Incorrect number of preInts in input stream");
